@@ -18,6 +18,7 @@ structure St where
   qs : List Res := []
   pref : Option Bool := none   -- the client has sent its preface bytes (good / not) and they are unread
   srvGone : Bool := false      -- the server reset the connection before the preface was written to it
+  prefaced : Bool := false     -- the client has already sent what it sends first
 deriving Repr
 
 def init : St := {}
@@ -91,6 +92,14 @@ def early1 (st : St) : Option St :=
   | .failing _ => apply st .retErr
   | _ => none
 
+/-- The early stages run as soon as their input is there (the harness waits for the preface to reach
+    the server before it goes on). -/
+def earlyAll : Nat → St → St
+  | 0, st => st
+  | k + 1, st => match early1 st with
+    | some st' => earlyAll k st'
+    | none => st
+
 def settle : Nat → St → St
   | 0, st => st
   | fuel + 1, st =>
@@ -135,8 +144,8 @@ def stepN (st : St) (n : Nat) (toks : List String) : St × String :=
   match toks with
   | ["start"] =>
     if st.started then (st, "bad-op")
-    else ({ st with started := true, p := { stage := .running } }, "ok")
-  | ["begin", mode] =>
+    else ({ st with started := true, prefaced := true, p := { stage := .running } }, "ok")
+  | "begin" :: mode :: _ =>
     if st.started then (st, "bad-op") else
     match mode with
     | "ok" => ({ st with started := true, p := (pstep pinit (.dial true)).getD pinit }, "ok")
@@ -147,8 +156,10 @@ def stepN (st : St) (n : Nat) (toks : List String) : St × String :=
   match toks with
   | "env" :: "preface" :: kind :: _ =>
     match kind with
-    | "good" => ({ st with pref := some true }, "ok")
-    | "eof" | "short" | "wrong" => ({ st with pref := some false }, "ok")
+    | "good" | "split" =>
+      if st.prefaced then (st, "bad-op") else (earlyAll 4 { st with pref := some true, prefaced := true }, "ok")
+    | "eof" | "short" | "wrong" =>
+      if st.prefaced then (st, "bad-op") else (earlyAll 4 { st with pref := some false, prefaced := true }, "ok")
     | _ => (st, "bad-op")
   | "env" :: "deliver" :: d :: rest =>
     match parseDir d, parseRes rest with
@@ -156,9 +167,9 @@ def stepN (st : St) (n : Nat) (toks : List String) : St × String :=
       if !rest.contains ":" then (st, "bad-op")
       else if running st then (enqueue st d r n, "ok")
       else
-        -- before the relays exist only the server going away matters (the preface write fails)
-        if d == .s2c && (r == .err || r == .eof) then ({ (enqueue st d r n) with srvGone := r == .err }, "ok")
-        else (enqueue st d r n, "ok")
+        -- before the relays exist only the server can act: it goes away (the preface write fails)
+        if d == .s2c && (r == .err || r == .eof) then ({ (enqueue st d r n) with srvGone := st.srvGone || r == .err }, "ok")
+        else (st, "bad-op")
     | _, _ => (st, "bad-op")
   | ["env", "closing"] => ((apply st .closing).getD st, "ok")
   | ["env", "stall", "s2c"] => (envRelay st (.stall .s2c), "ok")
@@ -175,6 +186,7 @@ def stepN (st : St) (n : Nat) (toks : List String) : St × String :=
         | none => (st, "rejected")
       else (st, "bad-op")
     | none => (st, "bad-op")
+  | ["settings"] => if running st then (settle fuel st, "ok") else (st, "bad-op")
   | "settle" :: _ => (settle fuel st, "ok")
   | ["probe"] => let st := settle fuel st; (st, obs st.p)
   | ["finish"] =>
